@@ -156,18 +156,37 @@ impl Counters {
     }
 }
 
-/// frame k = `F::code(k)`; finite (`len = Some(n)`: exhausted exactly after n pulls, equilibrium
-/// afterwards) or infinite
+/// frame k = `F::code(k)`; finite (`len = Some(n)`: reports exhaustion exactly after n pulls) or infinite.
+/// `tail` further frames are still index-coded after exhaustion is reported ("exhausted but still sounding",
+/// like `long.add_amp(short)` built from dasp's own adaptors); equilibrium after that.
 pub struct Probe<F> {
     pub counters: Counters,
     pub len: Option<u64>,
+    pub tail: u64,
     pos: u64,
     _f: core::marker::PhantomData<F>,
 }
 
+impl<F> Clone for Probe<F> {
+    /// a clone continues from the same position and shares the counters
+    fn clone(&self) -> Self {
+        Probe { counters: self.counters.clone(), len: self.len, tail: self.tail, pos: self.pos, _f: core::marker::PhantomData }
+    }
+}
+
 impl<F: Coded> Probe<F> {
     pub fn new(len: Option<u64>, counters: Counters) -> Self {
-        Probe { counters, len, pos: 0, _f: core::marker::PhantomData }
+        Probe { counters, len, tail: 0, pos: 0, _f: core::marker::PhantomData }
+    }
+    pub fn with_tail(len: Option<u64>, tail: u64, counters: Counters) -> Self {
+        Probe { counters, len, tail, pos: 0, _f: core::marker::PhantomData }
+    }
+    /// what frame k of a probe (len, tail) is: Some(k) while coded, None for equilibrium
+    pub fn expected(len: Option<u64>, tail: u64, k: u64) -> Option<u64> {
+        match len {
+            Some(n) if k >= n + tail => None,
+            _ => Some(k),
+        }
     }
 }
 
@@ -178,7 +197,7 @@ impl<F: Coded> Signal for Probe<F> {
         let p = self.pos;
         self.pos += 1;
         match self.len {
-            Some(n) if p >= n => F::EQUILIBRIUM,
+            Some(n) if p >= n + self.tail => F::EQUILIBRIUM,
             _ => F::code(p),
         }
     }
